@@ -86,6 +86,9 @@ func Start(id, level string) *Run {
 	if r.Repo == "" {
 		r.Repo = "/repo"
 	}
+	if r.Replay == "" {
+		_ = os.RemoveAll(filepath.Join(r.Home, "replays", id))
+	}
 	var ff findingsFile
 	if b, err := os.ReadFile(filepath.Join(r.Home, "known_findings.json")); err == nil {
 		if err := json.Unmarshal(b, &ff); err != nil {
